@@ -23,8 +23,8 @@ SCENARIOS = ['excited', 'excited', 'excited', 'resume', 'resume', 'env_api', 'en
              'mixer', 'mixer', 'mixer']
 
 
-def gen_case(rng, quick=True):
-    sc = rng.choice(SCENARIOS)
+def gen_case(rng, quick=True, scenario=None):
+    sc = scenario or rng.choice(SCENARIOS)
     Ls = rng.choice([3, 4, 4, 5, 6])
     kind, p = L.gen_model(rng, Ls)
     if kind == 'Spin' and p.get('S') == 1.0:
